@@ -68,7 +68,7 @@ M = [
  ("C08__recoverable_v_masked", "secec/ecdsa.go", "sig = BuildCompactRecoverableSignature(r, s, v)", "sig = BuildCompactRecoverableSignature(r, s, v&1)"),
  ("C08__compact_order_swapped", "secec/s11n.go", "\tdst = append(dst, r.Bytes()...)\n\tdst = append(dst, s.Bytes()...)", "\tdst = append(dst, s.Bytes()...)\n\tdst = append(dst, r.Bytes()...)"),
  ("C08__kinv_of_r", "secec/ecdsa.go", "kInv := secp256k1.NewScalar().Invert(k) //nolint:revive", "kInv := secp256k1.NewScalar().Invert(r) //nolint:revive"),
- ("C11__negE_dropped", "secec/ecdsa.go", "u1 := secp256k1.NewScalar().Multiply(negE, rInv)", "u1 := secp256k1.NewScalar().Multiply(e, rInv)"),
+ ("C11__negE_dropped", "secec/ecdsa.go", "u1 := secp256k1.NewScalar().Multiply(negE, rInv)", "u1 := secp256k1.NewScalar().Multiply(e, rInv)\n\t_ = negE"),
  ("C11__id_bound", "point_s11n.go", "if recoveryID >= 4 {", "if recoveryID > 4 {"),
  ("C11__s_zero_allowed", "secec/ecdsa.go", "if r.IsZero() != 0 || s.IsZero() != 0 {\n\t\treturn nil, errInvalidRorS\n\t}\n\n\t// This roughly", "if r.IsZero() != 0 {\n\t\treturn nil, errInvalidRorS\n\t}\n\n\t// This roughly"),
  # harmless refactorings: must stay green
